@@ -188,6 +188,10 @@ impl Opts {
 // ---------------------------------------------------------------------------------------------
 
 pub static ALLOW_SUBSET_RANDOM: std::sync::atomic::AtomicBool = std::sync::atomic::AtomicBool::new(false);
+/// assumption lists mostly made of equalities strictly inside the domain, bounds as the rest (`--eqassume 1`)
+pub static EQ_ASSUME: std::sync::atomic::AtomicBool = std::sync::atomic::AtomicBool::new(false);
+/// every case uses `ConflictResolver::NoLearning` (`--nolearning 1`)
+pub static FORCE_NOLEARNING: std::sync::atomic::AtomicBool = std::sync::atomic::AtomicBool::new(false);
 
 /// C16: declare interval variables with a range of about ±2·10⁹ and narrow them to the model's domain
 /// by unary linear constraints posted *after* all other constraints (so that the existing
